@@ -418,6 +418,75 @@ def judge_symlinked_config(rec, rnd, tmp, k):
         shutil.rmtree(root, ignore_errors=True)
 
 
+def judge_broken_source(rec, rnd, tmp, k):
+    """One of several statement files cannot be read (another encoding, a regular-expression delimiter that does not compile, a description template
+    naming a column the format does not capture): up reports it and goes on with the others; discover lists what up leaves Unknown - once."""
+    root = os.path.join(tmp, 'bs%d' % k)
+    os.makedirs(os.path.join(root, 'config'))
+    os.makedirs(os.path.join(root, 'data'))
+    fault = rnd.choice(['encoding', 'bad-delimiter', 'template'])
+    order = rnd.choice(['good-first', 'good-first', 'broken-first', 'between'])
+    good = {'name': 'Card', 'file': 'data/card.csv', 'format': '{date:%Y-%m-%d},{description},{amount}'}
+    good2 = {'name': 'Card2', 'file': 'data/card2.csv', 'format': '{date:%Y-%m-%d},{description},{amount}'}
+    bad = {'name': 'Bank', 'file': 'data/bank.csv', 'format': '{date:%Y-%m-%d},{description},{amount}'}
+    with open(os.path.join(root, 'data', 'card.csv'), 'w') as f:
+        f.write('Date,Description,Amount\n2025-01-03,ZZZ HARDWARE STORE,30.40\n2025-01-04,ZZZ HARDWARE STORE,12.00\n2025-01-09,PEAK CLIMBING GYM,55.00\n2025-01-11,NETFLIX.COM,15.99\n')
+    with open(os.path.join(root, 'data', 'card2.csv'), 'w') as f:
+        f.write('Date,Description,Amount\n2025-02-03,OLD TOWN BAKERY,8.25\n')
+    if fault == 'encoding':
+        with open(os.path.join(root, 'data', 'bank.csv'), 'wb') as f:
+            f.write('Date,Description,Amount\n2025-01-05,CAF\xc9 M\xdcNCHEN,9.50\n2025-01-06,B\xc4CKEREI,4.20\n'.encode('cp1252'))
+    else:
+        with open(os.path.join(root, 'data', 'bank.csv'), 'w') as f:
+            f.write('Date,Description,Amount\n2025-01-05,CORNER SHOP,9.50\n')
+        if fault == 'bad-delimiter':
+            bad['delimiter'] = 'regex:([a-z'
+        else:
+            bad['format'] = '{date:%Y-%m-%d},{memo},{amount}'
+            bad['columns'] = {'description': '{memo} {nosuchcolumn}'}
+    srcs = {'good-first': [good, bad], 'broken-first': [bad, good], 'between': [good, bad, good2]}[order]
+    with open(os.path.join(root, 'config', 'settings.yaml'), 'w') as f:
+        yaml.safe_dump({'year': 2025, 'merchants_file': 'config/merchants.rules', 'data_sources': srcs}, f, sort_keys=False)
+    with open(os.path.join(root, 'config', 'merchants.rules'), 'w') as f:
+        f.write('[Netflix]\nmatch: contains("NETFLIX")\ncategory: Subs\n')
+    cfg = os.path.join(root, 'config')
+    case = {'kind': 'broken-source', 'fault': fault, 'order': order}
+    rec.case()
+    pu = B.tally(root, 'up', cfg, '--format', 'json', '-v')
+    pd = B.tally(root, 'discover', cfg, '--format', 'json', '-n', '0')
+    rec.count('cli_runs', 2)
+    try:
+        try:
+            U = B.json_from_stdout(pu.stdout)
+        except Exception:
+            rec.count('broken_source_up_gives_no_report_not_judged')          # what up owes the user here is C11's subject
+            return
+        up_unknown, up_total = Counter(), 0.0
+        for m in U['merchants']:
+            if m['category'] == 'Unknown':
+                up_total += m['total']
+                for d, n in (m.get('raw_descriptions') or {}).items():
+                    up_unknown[d] += n
+        rec.count('broken_source_checks')
+        if 'No unknown transactions found' in pd.stdout:
+            D = []
+        else:
+            try:
+                D = json.loads(pd.stdout[pd.stdout.index('['):])
+            except Exception:
+                rec.violation('discover-fails-where-up-reports:broken-source', f'{fault} / {order}: up lists {dict(up_unknown)} as Unknown; discover: exit {pd.returncode} '
+                              f'{pd.stderr[-200:]!r} {pd.stdout[:100]!r}', case)
+                return
+        disc = Counter({x['raw_description']: x['count'] for x in D})
+        if disc != up_unknown:
+            rec.violation('discover-unknown-list-differs:broken-source', f'a source that cannot be read ({fault}, {order}): discover lists {dict(disc)}, up leaves Unknown '
+                          f'{dict(up_unknown)}', case)
+        elif abs(sum(x['total_spend'] for x in D) - up_total) > 0.005:
+            rec.violation('discover-total-differs:broken-source', f'{fault} / {order}: discover totals {sum(x["total_spend"] for x in D):.2f}, up {up_total:.2f}', case)
+    finally:
+        shutil.rmtree(root, ignore_errors=True)
+
+
 def judge_probe(rec, rnd, tmp, k):
     rf = probe_rulefile(rnd)
     mode = rnd.choice(['first_match', 'first_match', 'most_specific'])
@@ -425,7 +494,8 @@ def judge_probe(rec, rnd, tmp, k):
     for sub in ('a', 'b'):
         os.makedirs(os.path.join(root, sub, 'config'))
         os.makedirs(os.path.join(root, sub, 'data'))
-    base_rows = 'Date,Description,Amount\n2025-01-05,EXISTING VENDOR ONE,12.00\n2025-01-06,ANOTHER EXISTING THING,30.00\n'
+    base_rows = 'Date,Description,Amount\n2025-01-05,EXISTING VENDOR ONE,12.00\n2025-01-06,ANOTHER EXISTING THING,30.00\n2025-01-07,ZZTOP WHSE #0012 WA,%s\n' % \
+        rnd.choice(['340.20', '7.00', '1250.00'])
     desc = rnd.choice(['PROBE %s STORE', '%s STORE', 'SQ *%s PROBE', 'aplpay %s', 'ZQ %s 77', 'QQQ NOTHING %s']) % rnd.choice(PROBE_WORDS + ['xx'])
     amount = rnd.choice([5.0, 15.0, 150.0, 600.0])
     settings = {'year': 2025, 'merchants_file': 'config/merchants.rules', 'rule_mode': mode,
@@ -440,7 +510,13 @@ def judge_probe(rec, rnd, tmp, k):
     case = {'kind': 'probe', 'rules': R.render(rf), 'mode': mode, 'desc': desc, 'amount': amount}
     rec.case()
     pu, U = up_json(os.path.join(root, 'b'), os.path.join(root, 'b', 'config'))
-    pe = B.tally(os.path.join(root, 'a'), 'explain', desc, os.path.join(root, 'a', 'config'), '--amount', str(amount), '--format', 'json')
+    earlier = []
+    if rnd.random() < .4:
+        # several things asked in ONE invocation: an earlier query that finds existing transactions by a piece of their statement text; the answer for
+        # the description asked next is the same as when it is asked alone
+        earlier = [rnd.choice(['#0012', 'WHSE #0012', 'EXISTING THING'])]
+        rec.count('description_probes_after_an_earlier_query')
+    pe = B.tally(os.path.join(root, 'a'), 'explain', *earlier, desc, os.path.join(root, 'a', 'config'), '--amount', str(amount), '--format', 'json')
     rec.count('cli_runs', 2)
     if U is None:
         shutil.rmtree(root, ignore_errors=True)
@@ -451,10 +527,23 @@ def judge_probe(rec, rnd, tmp, k):
         shutil.rmtree(root, ignore_errors=True)
         return
     mu = mu[0]
+    T = None
     try:
-        T = json.loads(pe.stdout[pe.stdout.index('{'):])
-    except Exception:
-        T = None
+        # (with an earlier query the output holds that query's answer first: take the document that answers THIS description)
+        dec, pos, out = json.JSONDecoder(), 0, pe.stdout
+        while True:
+            pos = out.index('{', pos)
+            try:
+                doc, end = dec.raw_decode(out, pos)
+            except ValueError:
+                pos += 1
+                continue
+            if isinstance(doc, dict) and doc.get('original') == desc:
+                T = doc
+                break
+            pos = end
+    except ValueError:
+        pass
     mech = mech_for_probe(rf, desc, amount, mode)
     if T is None:
         # explain prints "No merchant matching ... Did you mean" to stderr for unknown descriptions close to a merchant name
@@ -484,6 +573,7 @@ def run(rec, shard, nshards, t):
             judge_probe_csv(rec, rnd, tmp, k)
             judge_discover_text(rec, rnd, tmp, k)
             judge_symlinked_config(rec, rnd, tmp, k)
+            judge_broken_source(rec, rnd, tmp, k)
         if shard == 0:
             rec.sample({'probe_rules': R.render(probe_rulefile(rnd))[:500]})
     finally:
@@ -505,5 +595,6 @@ def replay(rec, case):
             judge_probe_csv(rec, rnd, tmp, k)
             judge_discover_text(rec, rnd, tmp, k)
             judge_symlinked_config(rec, rnd, tmp, k)
+            judge_broken_source(rec, rnd, tmp, k)
     finally:
         shutil.rmtree(tmp, ignore_errors=True)
